@@ -172,13 +172,16 @@ Section SeqProofs.
     end.
   Proof. destruct s as [r abs v|r k a|k a|d r a|d r a n]; try destruct r; try exact I; reflexivity. Qed.
 
-  Theorem total_seq l : forall p, ~ In OPanic (srun F p l) /\ length (srun F p l) = length l.
+  Theorem total_seq l : forall p, ~ In OPanic (srun F p l) /\ ~ In OHang (srun F p l) /\ length (srun F p l) = length l.
   Proof.
     induction l as [|s r IH]; intros p; [cbn; auto|].
-    cbn [srun]. destruct (sstep F p s) as [c o] eqn:E. destruct (IH c) as [H1 H2]. split.
-    - cbn [In]. intros [H|H]; [|exact (H1 H)]. subst o.
-      destruct s as [r0 abs v|r0 k a|k a|d r0 a|d r0 a n]; cbn in E; try destruct (inner r0); inversion E.
-    - cbn [length]. rewrite H2. reflexivity.
+    cbn [srun]. destruct (sstep F p s) as [c o] eqn:E. destruct (IH c) as (H1 & H2 & H3).
+    assert (Ho : o <> OPanic /\ o <> OHang).
+    { destruct s as [r0 abs v|r0 k a|k a|d r0 a|d r0 a n]; cbn in E; try destruct (inner r0); inversion E; split; discriminate. }
+    destruct Ho as [Ho1 Ho2]. split; [|split].
+    - cbn [In]. intros [H|H]; [exact (Ho1 H)|exact (H1 H)].
+    - cbn [In]. intros [H|H]; [exact (Ho2 H)|exact (H2 H)].
+    - cbn [length]. rewrite H3. reflexivity.
   Qed.
 End SeqProofs.
 
